@@ -2,6 +2,7 @@ package c18
 
 import (
 	"fmt"
+	"strings"
 
 	"github.com/openconfig/goyang/pkg/yang"
 	"verif/mc/dump"
@@ -20,6 +21,11 @@ func scaleCases(tier string) []scalekit.Case {
 		max = 65
 	}
 	var out []scalekit.Case
+	for n := 1; n <= 48; n++ {
+		for v := 0; v < 2; v++ {
+			out = append(out, scalekit.Case{Shape: "owner-late", N: n, V: v})
+		}
+	}
 	for _, n := range scale.Sizes(max, max) {
 		for v := 0; v < 4; v++ {
 			out = append(out, scalekit.Case{Shape: "imports-late", N: n, V: v}, scalekit.Case{Shape: "includes-late", N: n, V: v})
@@ -31,6 +37,21 @@ func scaleCases(tier string) []scalekit.Case {
 func checkScale(cs scalekit.Case) scalekit.Verdict {
 	var files []dump.File
 	switch cs.Shape {
+	case "owner-late":
+		// submodule s with n groupings, typedefs and identities of its own includes s2 and uses a
+		// grouping, a typedef and an identity of s2; the owner m includes only s and is loaded
+		// after the submodules were processed (and read) on their own
+		var sb strings.Builder
+		sb.WriteString(`submodule s { yang-version 1.1; belongs-to m { prefix m; } include s2;`)
+		for i := 0; i < cs.N; i++ {
+			fmt.Fprintf(&sb, " grouping g%d { leaf l%d { type string; } } typedef t%d { type int8; } identity i%d;", i, i, i, i)
+		}
+		sb.WriteString(` container c { uses g0; uses shared; leaf viat { type st; } leaf r { type identityref { base sid; } } } identity derived { base sid; } }`)
+		files = []dump.File{
+			{Name: "s.yang", Text: sb.String()},
+			{Name: "s2.yang", Text: `submodule s2 { yang-version 1.1; belongs-to m { prefix m; } grouping shared { leaf from-s2 { type string; } } typedef st { type int16; } identity sid; }`},
+			{Name: "m.yang", Text: `module m { yang-version 1.1; namespace "urn:m"; prefix m; include s; leaf own { type string; } }`},
+		}
 	case "imports-late":
 		files = scale.Imports(cs.N)
 	case "includes-late":
@@ -38,7 +59,7 @@ func checkScale(cs scalekit.Case) scalekit.Verdict {
 	}
 	// the dependency held back: the last one (variants 0, 1) or the middle one (2, 3)
 	late := len(files) - 1
-	if cs.V >= 2 {
+	if cs.V >= 2 && cs.Shape != "owner-late" {
 		late = 1 + (len(files)-1)/2
 		if late >= len(files) {
 			late = len(files) - 1
@@ -55,8 +76,13 @@ func checkScale(cs scalekit.Case) scalekit.Verdict {
 		}
 	}
 	first := ms.Process()
-	if len(first) == 0 {
+	if len(first) == 0 && cs.Shape != "owner-late" {
 		return scalekit.Bad("missing-dependency-not-reported", "an error from the first Process", "none")
+	}
+	if cs.Shape == "owner-late" && cs.V == 1 {
+		for _, m := range ms.SubModules {
+			yang.ToEntry(m).GetErrors()
+		}
 	}
 	if cs.V%2 == 1 || cs.Shape == "imports-late" {
 		// reads in between
